@@ -291,6 +291,9 @@ def check_single(chk, case):
 
 
 # ------------------------------------------------------------------ top-down with ground-truth peaks
+SIG_GT_EFF = "gt_peaks_match_mixes_eff_scale"
+
+
 def impl_gt(case, vids):
     """REAL TopDownPredictor(centroid model only) → CentroidCrop(return_crops=False) +
     FindInstancePeaksGroundTruth, LabelsReader with `instances_key=True`."""
@@ -373,17 +376,45 @@ def check_gt(chk, case):
     n_an = [len(f.animals) for f in frames]
     chk.case(("gt", json.dumps(small, sort_keys=True)),
              {"case": "gt_peaks", "B": B, "max_instances": mi, "animals_per_frame": n_an, "order": order, "model": ml[:200]},
-             tags=["gt_peaks", f"B={B}", f"mi={mi}",
+             tags=["gt_peaks", f"B={B}", f"mi={mi}", "gt_eff=1" if case["max_hw"][0] is None else "gt_eff!=1",
                    "fewer_than_max_before_another" if any(n < max_inst for n in n_an[:-1]) else "no_short_frame_first"])
     why, ok = [], len(rows_b) == len(frames)
     if ok:
+        mismatch = None
         for i, (fr, r) in enumerate(zip(frames, rows_b)):
             want = toks[i * max_inst:(i + 1) * max_inst]
             got = ["-" if inst is None else str(which_animal(fr, inst)) for inst in r["insts"]]
-            if got != want:
-                ok = False
-                chk.disagree("FindInstancePeaksGroundTruth rows == Decode.gtPeaks", {**small, "position": i}, got, want)
-                break
+            if got != want and mismatch is None:
+                mismatch = (i, got, want)
+        if mismatch is not None:
+            # structural predicate of F-C12b: size matching is active and every frame's rows are exactly
+            # what nearest-instance matching gives when the centroids (÷ eff) are compared with the
+            # ground-truth instances still in size-matched (× eff) coordinates
+            effs = [float(stubs.eff_scale_nominal(fr.H, fr.W, *case["max_hw"])) for fr in frames]
+            mixed_all = any(e != 1.0 for e in effs)
+            for fr, r, e in zip(frames, rows_b, effs):
+                pk, _ = frame_peaks(fr, r, case)
+                if mi is not None and len(pk) > mi:
+                    pk = sorted(pk, key=lambda t: -t[3])[:mi]
+                ids = []
+                for _, cx, cy, _ in pk:
+                    c = (cx * case["os_c"] / case["sc"] / e, cy * case["os_c"] / case["sc"] / e)
+                    d = [min(math.hypot(p[0] * e - c[0], p[1] * e - c[1]) for p in an.pts if p is not None)
+                         for an in fr.animals]
+                    ids.append(int(np.argmin(d)))
+                pred = ([str(a) for a in ids] + ["-"] * max_inst)[:max_inst]
+                got = ["-" if inst is None else str(which_animal(fr, inst)) for inst in r["insts"]]
+                if got != pred:
+                    mixed_all = False
+            if mixed_all:
+                chk.tag("gt_peaks_mixed_coordinate_match")
+                chk.fail("C12/C02: FindInstancePeaksGroundTruth pairs centroids (÷ eff_scale) with ground-truth instances "
+                         f"still in size-matched coordinates: position {mismatch[0]} returns animals {mismatch[1]}, labelled order {mismatch[2]}",
+                         small, {"position": mismatch[0], "got": mismatch[1], "want": mismatch[2]}, [SIG_GT_EFF])
+                return
+            ok = False
+            chk.disagree("FindInstancePeaksGroundTruth rows == Decode.gtPeaks", {**small, "position": mismatch[0]},
+                         mismatch[1], mismatch[2])
     else:
         chk.disagree("one output row block per frame", small, len(rows_b), len(frames))
     bb, b1, bp = rows_by_code(rows_b), rows_by_code(rows_1), rows_by_code(rows_p)
@@ -417,8 +448,12 @@ def gen_gt(rng, i):
         case = gen_topdown_case(rng, refine=("integral" if i % 3 == 2 else None), max_instances=[None, None, 2][i % 3],
                                 counts=(1, 1, 2, 3, 4))
         case["videos"] = case["videos"][:1]
-        case["max_hw"] = [None, None]
         v = case["videos"][0]
+        if i % 3 == 1:   # size matching active (eff_scale ≠ 1)
+            e = rng.choice([0.5, 0.75, 1.5, 2.0])
+            case["max_hw"] = [int(v[0]["H"] * e), int(v[0]["W"] * e) + rng.choice([0, 8])]
+        else:
+            case["max_hw"] = [None, None]
         while len(v) < 3:
             v.append(json.loads(json.dumps(v[rng.randrange(len(v))])))
         if all(f["animals"] for f in v) and len({len(f["animals"]) for f in v}) > 1:
